@@ -71,6 +71,9 @@ def replay(ctx, data):
     if data.get("kind") != "failing-input":
         print(json.dumps(data, indent=1))
         return 1
+    # the driver must speak for the tree being replayed on
+    ctx.extract(["testrunner"])
+    ctx.lake_build(["rotov-driver"])
     exe = build_roto_bin(ctx)
     if exe:
         os.environ["ROTO_BIN"] = exe
